@@ -252,6 +252,9 @@ def check_c16(tier):
             braces = [t for t in dsltok.tokenize(text) if t.text in "{}"]
             for b in braces[:: (3 if not thorough else 1)]:
                 extra.append(("%s#drop@%d" % (name, b.line), text[:b.pos] + " " + text[b.pos + 1:]))
+            for k, ch in enumerate("#$?"):
+                at = braces[k % len(braces)]
+                extra.append(("%s#badchar%s" % (name, ch), text[:at.pos] + ch + text[at.pos:]))
         extra.append(("minimal", docs.MINIMAL))
         extra.append(("special", docs.SPECIAL))
         extra.append(("special-relaid", dsltok.relayout(docs.SPECIAL, "fewlines", 1)))
